@@ -409,7 +409,7 @@ def _shard(task: tuple[str, int, int, int]) -> Stats:
 def run(ctx: Any) -> None:
     tier = "quick" if ctx.quick else "thorough"
     n = len(recipes(tier))
-    step = max(8, n // 48)
+    step = max(8, n // (16 if ctx.quick else 96))      # every shard rebuilds the pool: few shards in quick
     tasks = [(tier, lo, lo + step, ctx.seed) for lo in range(0, n, step)]
     for _, st in pmap(_shard, tasks):
         ctx.merge(st)
